@@ -3,6 +3,19 @@ NOTES = ("All checks share one Coq development and one harness; ./check --setup 
          "Fix commits in /repo (F1-F7) are listed in known_findings.json as fixed entries.")
 NOT_APPLICABLE = {}
 CHECKS = {
+    "C17": {
+        "text": "Proved for any F: create_share's output is the fixed JSON frame around base64 of exactly the key, a share and the tag of the core derivations; "
+                "base64 decode(encode) = id for all byte strings, only canonical encodings accepted, alphabet needs no JSON escaping; group_shares = "
+                "base64 + share decoding + share_recover + derive_ske_key, yields nothing on undecodable input, never panics; another epoch gives the "
+                "same key only on a truncated-digest collision. Combined with C01/C02/C05 for what share_recover returns.",
+        "note": "The string API is called natively; wasm-bindgen glue is not modelled.",
+    },
+    "C18": {
+        "text": "Proved: a bucket of honest reports with t distinct points yields the measurement and, per client, its associated data with empty reported "
+                "as absent; the output is one entry per tag bucket of >= threshold reports; 'exactly the associated data' is refuted for empty associated "
+                "data (known finding). Order / thread-count independence: sequential model vs the Rust under 6 pool sizes and shuffles on every run.",
+        "note": "Partial for schedules: rayon's contract is not modelled. Known finding C18/empty-aux.",
+    },
     "C10": {
         "text": "Theorems for ANY depth, ANY PRG, ANY puncture history (unbounded, any order, repetitions): an input evaluates iff never punctured, and "
                 "then to its fresh-key value; fresh punctures succeed and add exactly that input; repeated punctures are refused without change; "
